@@ -69,6 +69,12 @@ func (s hstate) fin() [2]uint64 {
 // shortest first, and calls fn for each distinct concatenation owned by this
 // shard. idx is the fragment index sequence (valid only during the call).
 func Seqs(c *run.Ctx, alpha []string, minLen, maxLen int, fn func(input []byte, idx []int)) {
+	SeqsS(c, "", alpha, minLen, maxLen, fn)
+}
+
+// SeqsS is Seqs with a salt that distinguishes enumerations whose sequences are
+// embedded in different contexts (sharding and de-duplication are per salt).
+func SeqsS(c *run.Ctx, salt string, alpha []string, minLen, maxLen int, fn func(input []byte, idx []int)) {
 	ab := make([][]byte, len(alpha))
 	for i, a := range alpha {
 		ab[i] = []byte(a)
@@ -96,7 +102,7 @@ func Seqs(c *run.Ctx, alpha []string, minLen, maxLen int, fn func(input []byte, 
 				idx = idx[:len(idx)-1]
 			}
 		}
-		rec(0, hinit())
+		rec(0, hinit().add([]byte(salt)))
 		if c.Expired() {
 			c.Cap(fmt.Sprintf("sequence length %d not completed", L))
 			return
@@ -106,11 +112,16 @@ func Seqs(c *run.Ctx, alpha []string, minLen, maxLen int, fn func(input []byte, 
 
 // Bytes enumerates every byte string of length minLen..maxLen over alpha.
 func Bytes(c *run.Ctx, alpha []byte, minLen, maxLen int, fn func(input []byte)) {
+	BytesS(c, "", alpha, minLen, maxLen, fn)
+}
+
+// BytesS is Bytes with a salt (see SeqsS).
+func BytesS(c *run.Ctx, salt string, alpha []byte, minLen, maxLen int, fn func(input []byte)) {
 	as := make([]string, len(alpha))
 	for i, b := range alpha {
 		as[i] = string([]byte{b})
 	}
-	Seqs(c, as, minLen, maxLen, func(in []byte, _ []int) { fn(in) })
+	SeqsS(c, salt, as, minLen, maxLen, func(in []byte, _ []int) { fn(in) })
 }
 
 // ---- case records -----------------------------------------------------------------------
